@@ -144,6 +144,9 @@ def run(ctx):
     except Exception as e:  # noqa
         ctx.broken.append("second interpreter run failed: " + repr(e))
 
+    if ctx.tier == "thorough" and not ctx.second_search:
+        lib.run_coqchk(ctx)
+        ctx.tick("coqchk -o over all compiled libraries")
     ctx.cov["rule"] = ("cases = 10 corpus vectors + generated (key,seed): lengths 0..257 three times over then random, "
                        "bytes biased to 00/7f/80/ff, seeds from {0,1,2^32-1,2^32,2^63,2^64-1} or random 64-bit; "
                        "each case evaluates all three functions on the implementation, on a pure-Python reference, and "
